@@ -374,6 +374,66 @@ def r06_4(prog, tab):
     return r
 
 
+def r06_4b(prog, tab):
+    """An encoder that normalises never encodes the caller's own representation on a canonical path.  Scope: encoder-slot
+    functions that call an allocating normaliser (the functions R06.4 found).  The CFG is walked from the entry with
+    the canonical flag (a parameter or local derived from XER_F_CANONICAL) assumed set where there is one; no call that
+    is handed the function's own structure parameter (`sptr`) may be an encoder (a function of the fallible-output
+    set): on a canonical path only the normalised copy is encoded."""
+    from .. import ownership
+    from . import c07
+    r = Rule("R06.4b", "on canonical paths a normalising encoder hands only the normalised copy to the underlying encoder, never the caller's structure", floor=3)
+    summ = ownership.Summaries(prog, load_tables("c14"))
+    summ.close_alloc_funcs()
+    fall = c07.fallible_functions(prog)
+    slot_funcs = common.slot_functions(prog, common.ENCODER_SLOTS)
+    for k in sorted(slot_funcs):
+        f = prog.funcs[k]
+        if not any(e.get("callee") in summ.alloc_funcs for b, i, e in f.calls()):
+            continue
+        sp = [p_["id"] for p_ in f.params if p_["type"].replace(" ", "") in ("constvoid*",)]
+        if not sp:
+            continue
+        sp = sp[0]
+        # canonical flag: the `flags` parameter of xer encoders
+        flagp = next((p_["id"] for p_ in f.params if "xer_encoder_flags" in p_["type"]), None)
+
+        def isflagtest(t):
+            t = strip_casts(t)
+            return isinstance(t, list) and t and t[0] == "bin" and t[1] == "&" and flagp is not None and is_var(strip_casts(t[2]), flagp) \
+                and any(n[0] == "enum" and n[1] == "XER_F_CANONICAL" for n in walk(t[3]))
+        seen, st = set(), [f.entry]
+        reach = set()
+        while st:
+            bid = st.pop()
+            if bid in seen or bid is None:
+                continue
+            seen.add(bid)
+            reach.add(bid)
+            blk = f.blocks[bid]
+            alive = [s_ for s_ in blk.succ if s_ is not None]
+            if blk.term and "cond" in blk.term and len(blk.succ) >= 2 and blk.term["kind"] != "SwitchStmt":
+                v = assume.eval_under(blk.term["cond"]["tree"], isflagtest, 1)
+                if v is not None:
+                    alive = [blk.succ[0]] if v else [blk.succ[1]]
+            st.extend(alive)
+        n = 0
+        for b, i, e in f.calls():
+            if b.id not in reach:
+                continue
+            cal = prog.resolve_direct(e["callee"], f) if "callee" in e else None
+            if cal is None or cal.key not in fall:
+                continue
+            n += 1
+            key = "%s#%d" % (e["callee"], n)
+            if any(is_var(strip_casts(a.get("tree")), sp) for a in e.get("args", [])):
+                r.bad(f, key, "on a canonical path `%s` is given the caller's structure `%s` although this encoder builds a normalised copy: "
+                              "the stored representation, not the abstract value, decides the bytes" % (e["callee"], sp.split("@")[0]), e["line"])
+            else:
+                r.ok(f, key, "the underlying encoder is given the normalised copy", e["line"])
+    return r
+
+
 def _reaches(f, cb, b):
     return b.id in f.reachable_from([cb.id])
 
@@ -381,7 +441,7 @@ def _reaches(f, cb, b):
 def run(ctx):
     prog = ctx.prog("S")
     tab = load_tables("c06")
-    return [r06_1(prog, tab), r06_1b(prog, tab), r06_1c(prog, tab), r06_2(prog, tab), r06_3(prog, tab), r06_4(prog, tab)]
+    return [r06_1(prog, tab), r06_1b(prog, tab), r06_1c(prog, tab), r06_2(prog, tab), r06_3(prog, tab), r06_4(prog, tab), r06_4b(prog, tab)]
 
 
 def thorough(ctx):
